@@ -23,6 +23,9 @@ def run(chk, tier):
     db = D.load("checks")
     from ..rules import params as _PR
     _PR.check(chk, db, ['_set/', '_flat_set/'], floor=30)
+    from ..rules import sibs as _SB
+    _SB.check(chk, db, ['_set/', '_flat_set/'])      # SIB: cv/ref-qualified overloads of one member agree
+    _SB.positive_control(chk)
     totals = {}
     for rq, needs_full in SETS.items():
         if not db.rec_by_q.get(rq):
